@@ -61,7 +61,8 @@ theorem procPair_wn (s : PState) (p : Pair) (N' : List Node) (h : NPerm s.P N') 
         rw [procPair_known_nolookup ext s p k1 hr hl, procPair_known_nolookup ext (s.wn N') p k1 hr' (by rw [hlk]; exact hl)]
       | some oid =>
         rw [procPair_known ext s p k1 oid hr hl, procPair_known ext (s.wn N') p k1 oid hr' (by rw [hlk]; exact hl), hn0]
-        have hm : matched (s.wn N') oid k1 = matched s oid k1 := rfl
+        have hm : matched (s.wn N') oid k1 = matched s oid k1 := by
+          unfold matched; rw [hn0]; rfl
         rw [hm]
         cases save ext (s.P.node 0).mapKeysToLower (matched s oid k1) p.args with
         | error e => rfl
